@@ -245,6 +245,11 @@ func Explore(mk func() Driver, o Options, kf *Findings) *Stats {
 							st.confPaths = append(st.confPaths, toU16(s.viol.Ops))
 						}
 						st.Pruned++
+						st.Outcomes["violation"]--
+						if st.Outcomes["violation"] == 0 {
+							delete(st.Outcomes, "violation")
+						}
+						st.Outcomes["known_finding"]++
 						continue
 					}
 					unknown = true
@@ -381,7 +386,7 @@ func expand(d Driver, w *World, pn pnode) []succ {
 			}
 			r.V.Ops = append(r.V.Ops, op)
 			s.viol = r.V
-			s.outcome = "VIOLATION"
+			s.outcome = "violation"
 		} else {
 			s.n = pnode{path: append(append([]uint16{}, pn.path...), uint16(op)), hash: keyOf(w, r.Next)}
 		}
